@@ -41,12 +41,15 @@ def check_bytes(case, ctx):
         ctx.count("empty-skipped")
         return
     want = b58.encode(b)
-    got = must_return("C10/encode/raised", "encode_base58(%d bytes)" % len(b), h.encode_base58, b)
+    if case["z"] % 2:
+        got = must_return("C10/encode/raised", "encode_base58(data=<%d bytes>)" % len(b), h.encode_base58, data=b)
+    else:
+        got = must_return("C10/encode/raised", "encode_base58(%d bytes)" % len(b), h.encode_base58, b)
     expect_eq("C10/encode/differs", "encode_base58(%s)" % b[:16].hex(), got, want)
     z = len(b) - len(b.lstrip(b"\x00"))
     ones = len(got) - len(got.lstrip("1"))
     expect_eq("C10/encode/leading-ones", "leading '1' count for %d leading zero bytes" % z, ones, z)
-    back = must_return("C10/decode/raised", "decode_base58(encode(b))", h.decode_base58, got)
+    back = must_return("C10/decode/raised", "decode_base58(encode(b))", h.decode_base58, s=got)
     expect_eq("C10/decode/roundtrip", "decode_base58(encode_base58(%s..))" % b[:16].hex(), back, b)
 
 
@@ -176,7 +179,14 @@ def check_checked(case, ctx):
         st0, got0 = call(h.decode_base58_checksum, valid)
         if st0 == "exc" or got0 != case["payload"]:
             raise Violation("C10/checksum/refused-valid", "decode_base58_checksum(%r) -> %r" % (valid[:60], got0))
-    st_, got = call(h.decode_base58_checksum, s)
+    st_, got = call(h.decode_base58_checksum, s=s) if len(s) % 2 else call(h.decode_base58_checksum, s)
+    # the address helper built on top of it: version byte stripped, same acceptance rule
+    st_a, got_a = call(h.b58decode_addr, s)
+    if want is None and st_a == "ok":
+        raise Violation("C10/checksum/b58decode_addr-accepted-invalid[%s]" % case["mut"][0],
+                        "b58decode_addr(%r) returned %r for a string whose checksum/alphabet is wrong" % (s[:60], got_a))
+    if want is not None and len(want) >= 1 and (st_a == "exc" or got_a != want[1:]):
+        raise Violation("C10/checksum/b58decode_addr-differs", "b58decode_addr(%r) -> %r, expected %s" % (s[:60], got_a, want[1:].hex()))
     if want is None:
         ctx.count("invalid")
         if st_ == "ok":
